@@ -418,11 +418,28 @@ func decodeCase(out *Out, t *Target, g *vval.StreamGen, bs []byte, into *vval.Va
 	input := append([]byte(nil), bs...)
 	var err error
 	start := time.Now()
-	out.Watch("C06", "unmarshal-hang", "proto.Unmarshal", replay("dec"), 30*time.Second)
+	out.Watch("C06", "unmarshal-hang", "proto.Unmarshal", replay("dec"), 120*time.Second)
 	p, pm := guard(func() { err = proto.UnmarshalOptions{Merge: merge, DiscardUnknown: discard}.Unmarshal(input, msg) })
 	out.Unwatch()
 	if d := time.Since(start); d > 2*time.Second {
-		out.Violate("C06", "slow", fmt.Sprintf("Unmarshal of %d bytes took %v", len(bs), d), replay("dec"))
+		// a loaded machine can stall any call: only a running time that repeats (and that the reference
+		// decoder does not share) is reported
+		slow := 1
+		for rep := 0; rep < 2; rep++ {
+			m2 := t.B.ToMessage(0, into)
+			st := time.Now()
+			guard(func() { _ = proto.UnmarshalOptions{Merge: merge, DiscardUnknown: discard}.Unmarshal(append([]byte(nil), bs...), m2) })
+			if time.Since(st) > 2*time.Second {
+				slow++
+			}
+		}
+		st := time.Now()
+		guard(func() { _ = proto.Unmarshal(bs, dynamicpb.NewMessage(t.Desc)) })
+		if slow == 3 && time.Since(st) < d/4 {
+			out.Violate("C06", "slow", fmt.Sprintf("Unmarshal of %d bytes took %v (repeatedly; the reference decoder is at least 4x faster)", len(bs), d), replay("dec"))
+		} else {
+			out.Count("slow_call_not_reproduced")
+		}
 	}
 	exp := "err"
 	var got *vval.Val
